@@ -7,6 +7,7 @@ import inspect
 import weakref
 from collections import OrderedDict
 
+from funsor import _verif
 from funsor.registry import PartialDispatcher
 from funsor.util import methodof
 
@@ -253,6 +254,10 @@ class Op(metaclass=OpMeta):
         op_class.__module__ = module_name
         op = op_class()
         return op
+
+
+if _verif.ENABLED:  # verification hook, off by default
+    Op.__hash__ = _verif.seeded_identity_hash
 
 
 def declare_op_types(locals_, all_, name_):
